@@ -53,6 +53,8 @@ def legacy_specs(P: str = "G", runtime_only: bool = False) -> list[CS]:
         CS(f"{P}FixedLbl", (f"{P}Lbl",), [FS("label", "prop", "str", "str", init=False, default='"fixed"')]),
         # a field whose annotation admits a node or a scalar and that holds the scalar (a property by its value)
         CS(f"{P}UnionLbl", (N,), [FS("label", "prop", f"{P}Leaf | str", "str", default='""'), FS("kid", "child", f"{N} | None", "opt", (N,), default="None")]),
+        # a wrapper that forwards unknown attributes to the node it wraps (the user's __getattr__)
+        CS(f"{P}Paren", (N,), [FS("inner", "child", N, "one", (N,))], body="    def __getattr__(self, name):\n        if name.startswith('__') or name == 'inner':\n            raise AttributeError(name)\n        return getattr(self.inner, name)\n"),
         # a sequence child field declared before single child fields
         CS(f"{P}SeqFirst", (N,), [FS("items", "child", f"tuple[{N}, ...]", "tuple", (N,), default="()"), FS("alpha", "child", f"{N} | None", "opt", (N,), default="None"), FS("omega", "child", f"{N} | None", "opt", (N,), default="None")]),
         # keyword-only child fields (field(kw_only=True)): children like any other
